@@ -759,7 +759,7 @@ func (c *evalCtx) call(x *ECall) Term {
 		is := w.intSort(64, true, types.Typ[types.Int])
 		switch a.Sort.Kind {
 		case KSlice:
-			return w.fromMathInt(fmt.Sprintf("(s-%s %s)", x.Fn, a.S), is)
+			return Term{fmt.Sprintf("(s-%s %s)", x.Fn, a.S), is}
 		case KString:
 			return w.fromMathInt(fmt.Sprintf("(str.len %s)", a.S), is)
 		case KArray:
